@@ -53,7 +53,7 @@ def prop_result(ctx, case):
     nested = [SC.junk(0x33, seed + j, j % 7) for j in range(nn)]
     if nn % 2:       # ... among them the undecoded names of the call's own family (BSC_mmap_extended_info for BSC_mmap)
         nested += [SC.ev(0x33, n, 0, seed, 8 + i) for i, n in enumerate(EV.family_lookalikes(name))]
-    txt = guard(render, name, a, e, nested=nested)
+    txt = guard(render, name, a, e, nested=nested, ts_rev=(seed >> 7) % 4 == 0)
     sc = TP.split_call(txt)
     if sc is None:
         raise Violation(f'call-shape:{name}', f'{txt!r}')
